@@ -25,6 +25,8 @@ type Violation struct {
 	Stack  string     `json:"stack,omitempty"`
 	KF     string     `json:"kf,omitempty"` // known-finding id that covers this model ("" = not covered)
 	Inputs []InputVal `json:"inputs"`
+	// MapOrder: the failing path took a non-default map iteration order
+	MapOrder bool `json:"map_order_dependent,omitempty"`
 }
 
 type PathResult struct {
@@ -112,6 +114,9 @@ func (ip *Interp) RunPath(fn *ssa.Function, params []int64, work Work, wantWitne
 	}()
 	if len(ip.violations) > 0 && res.Outcome == "ok" {
 		res.Outcome = "violation"
+	}
+	for i := range ip.violations {
+		ip.violations[i].MapOrder = ip.mapOrders > 0
 	}
 	res.Violations = ip.violations
 	res.Trace = append([]Dec(nil), ip.trace...)
